@@ -209,8 +209,13 @@ fn start_state<T: Transformation<M>>(s: &mut Sys<T>, x: &[f64], z: &[f64]) -> Op
 }
 
 fn step<T: Transformation<M>>(s: &mut Sys<T>, st: &State<M, TransformedPoint<M>>, dir: Direction) -> Option<State<M, TransformedPoint<M>>> {
+    step_f(s, st, dir, 1.0)
+}
+
+/// one leapfrog with an explicit step-size factor (the dynamic step-size retry of MCLMC halves it)
+fn step_f<T: Transformation<M>>(s: &mut Sys<T>, st: &State<M, TransformedPoint<M>>, dir: Direction, factor: f64) -> Option<State<M, TransformedPoint<M>>> {
     let e0 = st.point().initial_energy();
-    match s.h.leapfrog(&mut s.math, st, dir, 1.0, e0, f64::INFINITY, &mut NoCollector) {
+    match s.h.leapfrog(&mut s.math, st, dir, factor, e0, f64::INFINITY, &mut NoCollector) {
         LeapfrogResult::Ok(e) => Some(e),
         _ => None,
     }
@@ -403,6 +408,35 @@ fn check_case(c: &Case, p: &mut Partial, deep: bool) {
         if !((b.energy - a.energy).abs() <= 5.0) || big > 1e4 || esh_delta > 4.0 {
             p.count("ill_conditioned_cases_not_judged_for_reversibility", 1);
             return;
+        }
+        // ---- step-size factor: a step of base size eps/f taken with factor f is the step of size
+        // eps, from a fresh state and from a state that was itself reached with another factor
+        for fct in [0.5f64, 0.25] {
+            *s.h.step_size_mut() = c.eps.abs() / fct;
+            let first = step_f(&mut s, &st, dir, fct);
+            let second = step_f(&mut s, &e, dir, fct);
+            *s.h.step_size_mut() = c.eps.abs();
+            let second_plain = step(&mut s, &e, dir);
+            let same = |u: &Option<State<M, TransformedPoint<M>>>, w: &Snap, s: &mut Sys<_>| -> Option<String> {
+                let Some(u) = u else { return Some("step failed".to_string()) };
+                let us = snap(s, u);
+                if max_rel(&us.y, &w.y) > 1e-12 || max_rel(&us.v, &w.v) > 1e-12 || !mc_core::rel_close(us.energy, w.energy, 1e-12, 1e-12) {
+                    return Some(format!("position {:?} vs {:?}; velocity {:?} vs {:?}", &us.y[..d.min(3)], &w.y[..d.min(3)], &us.v[..d.min(3)], &w.v[..d.min(3)]));
+                }
+                None
+            };
+            if let Some(msg) = same(&first, &b, &mut s) {
+                viol("step-size-factor-not-equivalent-to-smaller-step", format!("factor {fct} from a fresh state: {msg}"), p);
+                return;
+            }
+            if let Some(plain) = &second_plain {
+                let w = snap(&mut s, plain);
+                if let Some(msg) = same(&second, &w, &mut s) {
+                    viol("step-size-factor-not-equivalent-to-smaller-step", format!("factor {fct} after a step taken with factor 1: {msg}"), p);
+                    return;
+                }
+            }
+            p.count("step_size_factor_equivalences_checked", 1);
         }
         // ---- time reversibility: a step back returns the start ----
         let back = if c.eps > 0.0 { Direction::Backward } else { Direction::Forward };
